@@ -21,7 +21,7 @@ func (c01) Meta() fw.Meta {
 	return fw.Meta{
 		ID: "C01",
 		Rule: "case = (layout, start clock, history of 12-50 ops: single/batch writes to named/best archives, clock advances incl. jumps > retention, sync, sync+close+reopen); " +
-			"after EVERY op every archive is fetched through 6-9 windows (whole retention, random, sub-step, degenerate, straddling now / the retention edge, from 0, crossing the physical ring end) plus best-archive fetches; " +
+			"after EVERY op every archive is fetched through 6-9 windows (whole retention, random, sub-step, degenerate, straddling now / the retention edge, from 0, crossing the physical ring end) plus best-archive fetches and fetches with a reader clock behind the write clock (slots then hold NEWER laps); " +
 			"oracle: each returned value bit-equals the value in the physical slot floor_mod((I-base)/S,N) iff that slot holds interval I, else NaN; each direct write changes exactly the addressed slot. " +
 			"non-trivial = the history produced at least one stale-lap NaN read, ring-end-crossing read or page-straddling slot read; distinct by hash of (layout, clock, ops).",
 		Assumptions: []string{
@@ -29,7 +29,7 @@ func (c01) Meta() fw.Meta {
 			"raw slot state is read through the live handle (GetAllRawUnsortedPoints) and cross-checked against the harness' own parse of the file bytes at every sync/reopen",
 			"layouts: 1-4 archives, steps 1..3600*60, rings of 1..1500 slots (thorough: a few files > 4 MiB)",
 		},
-		Obligations: []string{"stale_lap_nan_reads", "ring_end_crossing_reads", "page_straddle_slot_reads", "whole_ring_reads", "ring1", "ring2", "negative_distance_reads", "reopen_then_read", "jump_longer_than_retention", "nan_payload_roundtrip", "distance_beyond_31_bits_reads", "file_over_1024_pages"},
+		Obligations: []string{"stale_lap_nan_reads", "ring_end_crossing_reads", "page_straddle_slot_reads", "whole_ring_reads", "ring1", "ring2", "negative_distance_reads", "reopen_then_read", "jump_longer_than_retention", "nan_payload_roundtrip", "distance_beyond_31_bits_reads", "file_over_1024_pages", "newer_lap_nan_reads"},
 	}
 }
 
@@ -210,6 +210,20 @@ func (c01) Run(c *fw.Ctx) {
 				obs = append(obs, fetchObs{ai, w.From, w.Until, w.Kind, ts, err})
 			}
 		}
+		// reads with a clock BEHIND the write clock (a reader on another host): slots may hold newer intervals
+		for j := 0; j < 2 && !big; j++ {
+			ai := r.Intn(len(l.Archs))
+			a := l.Archs[ai]
+			back := []int64{int64(a.Step), a.Ret() / 2, a.Ret(), a.Ret() + int64(a.Step)*int64(1+r.Intn(3))}[r.Intn(4)]
+			rnow := s.now - back
+			if rnow < l.MaxRet()+2*l.MaxStep() {
+				continue
+			}
+			f := rnow - r.Int63n(a.Ret()+1)
+			u := f + r.Int63n(rnow-f+1)
+			ts, err := s.db.FetchFromArchive(ai, u32(f), u32(u), u32(rnow))
+			obs = append(obs, fetchObs{ai, f, u, "reader-clock-behind", ts, err})
+		}
 		// best-archive fetches
 		for j := 0; j < 2; j++ {
 			f := s.now - r.Int63n(l.MaxRet()+1)
@@ -371,6 +385,9 @@ func (c01) Run(c *fw.Ctx) {
 					}
 					if ring[0].T != 0 && ring[idx].T != 0 {
 						c.Count("stale_lap_nan_reads", 1)
+						if int64(ring[idx].T) > iv {
+							c.Count("newer_lap_nan_reads", 1)
+						}
 						nontrivial = true
 					} else {
 						c.Count("empty_slot_nan_reads", 1)
